@@ -23,10 +23,16 @@ R7  a connect in progress is watched: descriptor registered for EPOLLOUT
 R8  resolver progress is watched: the resolver's entry points end in
     update_xpoll, which arms a zero timer once the query is finished.
 R9  the blocking forms wait on the socket's own descriptor after await().
+R10 the btls ready-state decision table, folded exactly over its 48 inputs:
+    decrypted bytes ring the bell when RECEIVABLE is awaited; an awaited
+    direction OpenSSL was not asked about since is either signalled (bell)
+    or watched on the sub-socket; a direction OpenSSL was asked about waits
+    for what OpenSSL said it wants.
 """
 from .. import cfg as C
 from .. import seq as S
 from .. import tp as TP
+from .. import btlsfold as BF
 from ..model import Program
 from ..report import Broken
 from .C06 import enum_name
@@ -236,9 +242,9 @@ def run(ctx):
     r6 = ctx.rule("C04.R6", "OpenSSL's WANT_READ/WANT_WRITE is recorded and handed to the sub-socket while handshaking")
     for proto in ("btcp", "btls"):
         t = [x for x in tables if x.proto == proto][0]
-        cu = [g for g in P.fns_in(t.slots["update"].file.split("/")[-1]) if g.name == "conn_update"]
+        cu = TP.conn_update_fn(P, t)
         if len(cu) != 1:
-            raise Broken("C04.R4: conn_update of %s not found" % proto)
+            raise Broken("C04.R4: connection update helper of %s not found (%d candidates)" % (proto, len(cu)))
         cu = cu[0]
         r4.instance(cu.qname)
         en = [e for e in t.unit.enums if e["name"] == "conn_state"][0]
@@ -326,6 +332,45 @@ def run(ctx):
                 r6.ok("while handshaking the sub-socket waits for what OpenSSL asked for", "case region")
             else:
                 r6.violation("%s:handshake-wants" % cu.qname, "while handshaking the sub-socket's condition is not set from ssl_wants", loc=cu.file)
+    # ------------------------------------------------------------------ R10
+    r10 = ctx.rule("C04.R10", "btls ready state: the wake-up decision table, folded over all 48 inputs, loses no awaited direction")
+    t = [x for x in tables if x.proto == "btls"][0]
+    cu = TP.conn_update_fn(P, t)[0]
+    en = [e for e in t.unit.enums if e["name"] == "conn_state"][0]
+    ready = [c["value"] for c in en["constants"] if c["name"] == "conn_state_ready"]
+    if not ready:
+        raise Broken("C04.R10: conn_state_ready not found")
+    try:
+        rows = BF.table(P, cu, ready[0])
+    except BF.FoldError as e:
+        raise Broken("C04.R10: %s" % e)
+    r10.instance("%s: %d input combinations" % (cu.qname, len(rows)))
+    bad10 = []
+    for r in rows:
+        if r["bell"]:
+            continue
+        if not r["sub_stored"] or not r["updated"]:
+            bad10.append((r, "the bell is cleared but the sub-socket's condition is not stored and updated")); continue
+        if r["cond"] & XCM_SO_RECEIVABLE and r["pending"]:
+            bad10.append((r, "bytes already decrypted are not signalled")); continue
+        for b in (XCM_SO_RECEIVABLE, XCM_SO_SENDABLE):
+            if not r["cond"] & b:
+                continue
+            if r["ssl_condition"] == b:
+                if r["ssl_wants"] & ~r["sub"]:
+                    bad10.append((r, "OpenSSL's pending %s asked for %s, which the sub-socket does not wait for" % ("read" if b == 1 else "write", BF.name(r["ssl_wants"]))))
+            elif not r["sub"] & b:
+                bad10.append((r, "%s is awaited, OpenSSL has not been asked about it since, and neither the bell nor the sub-socket watches it: "
+                              "nothing wakes the application to make the attempt" % BF.name(b)))
+    nquiet = sum(1 for r in rows if not r["bell"] and r["cond"])
+    if nquiet < 6:
+        raise Broken("C04.R10: only %d quiet rows in the folded table" % nquiet)
+    if bad10:
+        r, why = bad10[0]
+        r10.violation("%s:ready-table" % cu.qname, "%s [%s]" % (why, BF.describe(r)), loc=cu.file)
+    else:
+        r10.ok("all %d rows: %d ring the bell, %d hand exactly the needed interest to the sub-socket" % (len(rows), sum(1 for r in rows if r["bell"]), sum(1 for r in rows if not r["bell"])), "exact folding")
+
     pe = P.fn("process_ssl_event")
     r6.instance(pe.qname)
     sw = [b for b in pe.blocks.values() if b.term and b.term["k"] == "SwitchStmt"]
